@@ -463,6 +463,14 @@ def run_query_(o, tier, backend):
     if timed_out:
         return 'inconclusive', 'timeout %ds (%s)' % (secs, backend)
     results, err = parse_cbmc_json(out)
+    if results is None and 'too large for flattening' in (err or ''):
+        # the program asks for an allocation/array so large (typically a negative length turned size_t) that
+        # CBMC cannot encode it: no trace exists, so the obligation is handed to the native replay with the
+        # harness defaults (all symbolic inputs 0); only a reproducing run is reported
+        o.labels = ['cbmc:allocation-too-large-to-encode']
+        o.inputs = []
+        o.fail_detail = [{'label': o.labels[0], 'property': '', 'description': err, 'location': ''}]
+        return 'failed', ''
     if results is None:
         return 'inconclusive', '%s (%s, rc=%s) %s' % (err, backend, p.returncode, (getattr(p, 'stderr_text', '') or '')[-300:])
     fails, witness, unknown = [], None, []
